@@ -1,4 +1,1958 @@
-// placeholder, replaced by the protocol printer and stream generator
-#![allow(dead_code, unused_imports)]
-use verif_harness::{Cfg, r#gen::Rng, out::Out};
-pub fn run(_cfg: &Cfg, _out: &mut Out, _rng: &mut Rng) {}
+// C04: what a terminal sends, written from the protocol documents (twin of `SurfModel/Protocol.lean`),
+// the generator of message streams, the stream oracle against the real `TTYEventDecoder`, the key table
+// tie and the correspondence lines of the payload models.
+//
+// `Msg` mirrors Lean `Msg` constructor by constructor; `print` gives the same bytes and `meaning` the same
+// canonical event text (format: top of `events.rs`) as the Lean side (`proto msg <wire>` cross-checks the two
+// transcriptions on every generated message).  Nothing in `print` / `meaning` calls the decoder.
+#![allow(dead_code)]
+use super::dumps;
+use super::events::{self, show_event, show_result};
+use serde_json::{Value, json};
+use std::collections::{BTreeMap, BTreeSet, HashSet};
+use std::io::Cursor;
+use std::sync::OnceLock;
+use surf_n_term::{
+    decoder::{
+        Decoder, TTYEventDecoder,
+        verif_c04::{self, VerifDfaState, VerifTag},
+    },
+    terminal::{DecMode, DecModeStatus, TerminalEvent},
+};
+use verif_harness::{
+    Cfg, guarded,
+    out::{Out, hex},
+    r#gen::Rng,
+};
+
+/* ================================================================ messages */
+
+#[derive(Clone, Debug, PartialEq, Eq)]
+pub enum ColorName {
+    Foreground,
+    Background,
+    Palette(u64),
+}
+
+/// one channel of `rgb:…`: number of hex digits (1–4) and the transmitted value
+#[derive(Clone, Copy, Debug, PartialEq, Eq)]
+pub struct Channel {
+    pub digits: u32,
+    pub value: u64,
+}
+
+impl Channel {
+    /// X11 scaling of an n-digit channel to 16 bits (digit replication); a byte colour keeps the top 8 bits
+    pub fn byte(&self) -> u64 {
+        let v16 = match self.digits {
+            1 => self.value * 0x1111,
+            2 => self.value * 0x101,
+            3 => self.value * 16 + self.value / 256,
+            _ => self.value,
+        };
+        v16 / 256
+    }
+}
+
+#[derive(Clone, Debug, PartialEq, Eq)]
+pub enum ColorSpec {
+    /// `#rrggbb`
+    Hash(u64, u64, u64),
+    /// `rgb:r/g/b`
+    Rgb(Channel, Channel, Channel),
+}
+
+#[derive(Clone, Copy, Debug, PartialEq, Eq)]
+pub enum ColorForm {
+    /// `38 ; 2 ; r ; g ; b`
+    Semi,
+    /// `38 : 2 : r : g : b`
+    Colon,
+    /// `38 : 2 : : r : g : b`
+    ColonSpace,
+}
+
+#[derive(Clone, Debug, PartialEq, Eq)]
+pub enum SgrItem {
+    Reset,
+    Bold(bool),
+    Italic(bool),
+    Blink(bool),
+    Strike(bool),
+    /// 0 off (`24`), 1 straight (`4`), 2 double (`4:2`), 3 curly, 4 dotted, 5 dashed
+    Underline(u64),
+    /// role 0 foreground, 1 background, 2 underline colour
+    Rgb { role: u64, r: u64, g: u64, b: u64, form: ColorForm },
+}
+
+#[derive(Clone, Copy, Debug, PartialEq, Eq)]
+pub enum OscEnd {
+    St,
+    Bel,
+}
+
+#[derive(Clone, Debug, PartialEq, Eq)]
+pub enum Msg {
+    /// a key in one of its spellings: index into `proto_keys()`
+    Key(usize),
+    /// printable text: one Unicode scalar value in UTF-8
+    Text(u32),
+    /// SGR mouse report `CSI < code ; x ; y M|m`
+    Mouse { code: u64, x: u64, y: u64, press: bool },
+    /// CPR `CSI row ; col R` (1-based)
+    Cursor { row: u64, col: u64 },
+    /// XTWINOPS 18 and 14 replies `CSI 8 ; h ; w t CSI 4 ; h ; w t`
+    Size { ch: u64, cw: u64, ph: u64, pw: u64 },
+    /// DECRPM `CSI ? mode ; status $ y`
+    DecMode { mode_number: u64, status_number: u64 },
+    /// DA1 `CSI ? a ; b ; … c`, optionally with a trailing `;`
+    DeviceAttrs { attrs: Vec<u64>, trailing: bool },
+    /// OSC 10 / 11 / 4 colour reply
+    Color { name: ColorName, spec: ColorSpec, fin: OscEnd },
+    /// DECRPSS reply to `DECRQSS m`: `DCS 1 $ r params m ST`
+    FaceReport(Vec<SgrItem>),
+    /// XTGETTCAP success `DCS 1 + r name=value ; … ST` (hex encoded)
+    TermcapOk { entries: Vec<(Vec<u8>, Vec<u8>)>, upper: bool },
+    /// XTGETTCAP failure `DCS 0 + r name ; … ST`
+    TermcapFail { names: Vec<Vec<u8>>, upper: bool },
+    /// kitty keyboard `CSI ? flags u`
+    KeyboardLevel(u64),
+    /// kitty keyboard `CSI code[:alt…] [; 1+mods] u`
+    CsiU { code: u64, alts: Vec<u64>, mods: Option<u64> },
+    /// kitty graphics response `APC G i=id[,p=placement] ; OK|message ST`
+    KittyImage { id: u64, placement: Option<u64>, error: Option<Vec<u8>> },
+    /// bracketed paste
+    Paste(Vec<u8>),
+    /// SGR sequence `CSI params m`
+    Sgr(Vec<SgrItem>),
+}
+
+pub const FAMILY_NAMES: [&str; 14] = [
+    "keys", "cursorPosition", "decMode", "deviceAttrs", "sgr", "kittyImage", "kittyKeyboard", "mouse", "osc",
+    "reportSetting", "termcap", "termSize", "utf8", "paste",
+];
+
+/// = Lean `Msg.family` then `Family.index` (index of the matcher in `TTY_EVENT_AUTOMATA`)
+pub fn family(m: &Msg) -> usize {
+    match m {
+        Msg::Key(_) => 0,
+        Msg::Cursor { .. } => 1,
+        Msg::DecMode { .. } => 2,
+        Msg::DeviceAttrs { .. } => 3,
+        Msg::Sgr(_) => 4,
+        Msg::KittyImage { .. } => 5,
+        Msg::KeyboardLevel(_) | Msg::CsiU { .. } => 6,
+        Msg::Mouse { .. } => 7,
+        Msg::Color { .. } => 8,
+        Msg::FaceReport(_) => 9,
+        Msg::TermcapOk { .. } | Msg::TermcapFail { .. } => 10,
+        Msg::Size { .. } => 11,
+        Msg::Text(_) => 12,
+        Msg::Paste(_) => 13,
+    }
+}
+
+/* ================================================================ the naming table */
+
+const MOD_SHIFT: u64 = 1;
+const MOD_ALT: u64 = 2;
+const MOD_CTRL: u64 = 4;
+const MOD_PRESS: u64 = 256;
+
+// variants of `KeyName` as numbered by `events::key_name_variant`
+const K_BACKSPACE: u64 = 0;
+const K_CHAR: u64 = 1;
+const K_DELETE: u64 = 2;
+const K_INSERT: u64 = 3;
+const K_DOWN: u64 = 4;
+const K_END: u64 = 5;
+const K_ENTER: u64 = 6;
+const K_ESC: u64 = 7;
+const K_F: u64 = 8;
+const K_HOME: u64 = 9;
+const K_LEFT: u64 = 10;
+const K_MOUSE_LEFT: u64 = 11;
+const K_MOUSE_MIDDLE: u64 = 12;
+const K_MOUSE_MOVE: u64 = 13;
+const K_MOUSE_RIGHT: u64 = 14;
+const K_WHEEL_DOWN: u64 = 15;
+const K_WHEEL_UP: u64 = 16;
+const K_PAGE_DOWN: u64 = 17;
+const K_PAGE_UP: u64 = 18;
+const K_RIGHT: u64 = 19;
+const K_TAB: u64 = 20;
+const K_UP: u64 = 21;
+
+type KeyRow = (Vec<u8>, (u64, u64, u64));
+
+fn num(v: u64) -> Vec<u8> {
+    v.to_string().into_bytes()
+}
+
+fn cat(parts: &[&[u8]]) -> Vec<u8> {
+    let mut v = Vec::new();
+    for p in parts {
+        v.extend_from_slice(p);
+    }
+    v
+}
+
+const CSI: &[u8] = b"\x1b[";
+const ST: &[u8] = b"\x1b\\";
+
+fn build_proto_keys() -> Vec<KeyRow> {
+    let mut t: Vec<KeyRow> = vec![
+        (vec![27], (K_ESC, 0, 0)),
+        (vec![127], (K_BACKSPACE, 0, 0)),
+        (vec![0], (K_CHAR, 32, MOD_CTRL)),
+    ];
+    // lower case letters: alt+letter `ESC c`, ctrl+letter as the C0 control `c - 96`
+    for c in b'a'..=b'z' {
+        t.push((vec![27, c], (K_CHAR, c as u64, MOD_ALT)));
+        t.push((vec![c - 96], (K_CHAR, c as u64, MOD_CTRL)));
+    }
+    // upper case letters: alt+shift+letter
+    for c in b'A'..=b'Z' {
+        t.push((vec![27, c], (K_CHAR, c as u64 + 32, MOD_ALT + MOD_SHIFT)));
+    }
+    // ASCII punctuation, then digits: alt+character
+    let punct = (33u8..48).chain(58..65).chain(91..97).chain(123..127);
+    for c in punct {
+        t.push((vec![27, c], (K_CHAR, c as u64, MOD_ALT)));
+    }
+    for c in b'0'..=b'9' {
+        t.push((vec![27, c], (K_CHAR, c as u64, MOD_ALT)));
+    }
+    // `CSI number ~` (VT220 / xterm / rxvt numbering), `CSI number ; 1+mask ~`
+    let tilde: [((u64, u64), u64); 20] = [
+        ((K_HOME, 0), 1),
+        ((K_INSERT, 0), 2),
+        ((K_DELETE, 0), 3),
+        ((K_END, 0), 4),
+        ((K_PAGE_UP, 0), 5),
+        ((K_PAGE_DOWN, 0), 6),
+        ((K_INSERT, 0), 7),
+        ((K_END, 0), 8),
+        ((K_F, 1), 11),
+        ((K_F, 2), 12),
+        ((K_F, 3), 13),
+        ((K_F, 4), 14),
+        ((K_F, 5), 15),
+        ((K_F, 6), 17),
+        ((K_F, 7), 18),
+        ((K_F, 8), 19),
+        ((K_F, 9), 20),
+        ((K_F, 10), 21),
+        ((K_F, 11), 23),
+        ((K_F, 12), 24),
+    ];
+    for ((v, p), n) in tilde {
+        t.push((cat(&[CSI, &num(n), b"~"]), (v, p, 0)));
+        for m in 1..=7u64 {
+            t.push((cat(&[CSI, &num(n), b";", &num(m + 1), b"~"]), (v, p, m)));
+        }
+    }
+    // `CSI X` / `SS3 X`, `CSI 1 ; 1+mask X`
+    let letter: [((u64, u64), u8, u8); 14] = [
+        ((K_UP, 0), b'[', b'A'),
+        ((K_DOWN, 0), b'[', b'B'),
+        ((K_RIGHT, 0), b'[', b'C'),
+        ((K_LEFT, 0), b'[', b'D'),
+        ((K_END, 0), b'[', b'F'),
+        ((K_HOME, 0), b'[', b'H'),
+        ((K_F, 1), b'O', b'P'),
+        ((K_F, 1), b'[', b'P'),
+        ((K_F, 2), b'O', b'Q'),
+        ((K_F, 2), b'[', b'Q'),
+        ((K_F, 3), b'O', b'R'),
+        ((K_F, 3), b'[', b'R'),
+        ((K_F, 4), b'O', b'S'),
+        ((K_F, 4), b'[', b'S'),
+    ];
+    for ((v, p), intro, fin) in letter {
+        t.push((vec![27, intro, fin], (v, p, 0)));
+        for m in 1..=7u64 {
+            t.push((cat(&[CSI, b"1;", &num(m + 1), &[fin]]), (v, p, m)));
+        }
+    }
+    t
+}
+
+/// every spelling of every key of the naming table, in the order of Lean `protoKeys`
+pub fn proto_keys() -> Vec<KeyRow> {
+    keys().clone()
+}
+
+fn keys() -> &'static Vec<KeyRow> {
+    static KEYS: OnceLock<Vec<KeyRow>> = OnceLock::new();
+    KEYS.get_or_init(build_proto_keys)
+}
+
+/// name of an SGR mouse button code: bits 0–1 button, bit 6 wheel (bits 2–4 modifiers, bit 5 motion)
+pub fn button_name(code: u64) -> u64 {
+    match (code / 64 % 2, code % 4) {
+        (0, 0) => K_MOUSE_LEFT,
+        (0, 1) => K_MOUSE_MIDDLE,
+        (0, 2) => K_MOUSE_RIGHT,
+        (0, _) => K_MOUSE_MOVE,
+        (_, 0) => K_WHEEL_DOWN,
+        (_, 1) => K_WHEEL_UP,
+        (_, _) => K_MOUSE_MOVE,
+    }
+}
+
+/// name of a kitty `CSI u` key code: C0 names, F13–F35, otherwise the character itself
+pub fn csi_u_name(code: u64) -> (u64, u64) {
+    match code {
+        27 => (K_ESC, 0),
+        13 => (K_ENTER, 0),
+        9 => (K_TAB, 0),
+        127 => (K_BACKSPACE, 0),
+        57376..=57398 => (K_F, code - 57376 + 13),
+        _ => (K_CHAR, code),
+    }
+}
+
+/* ================================================================ print */
+
+fn utf8(cp: u32) -> Vec<u8> {
+    let cp = cp as u64;
+    let v: Vec<u64> = if cp < 0x80 {
+        vec![cp]
+    } else if cp < 0x800 {
+        vec![0xC0 + cp / 64, 0x80 + cp % 64]
+    } else if cp < 0x10000 {
+        vec![0xE0 + cp / 4096, 0x80 + cp / 64 % 64, 0x80 + cp % 64]
+    } else {
+        vec![0xF0 + cp / 262144, 0x80 + cp / 4096 % 64, 0x80 + cp / 64 % 64, 0x80 + cp % 64]
+    };
+    v.into_iter().map(|b| b as u8).collect()
+}
+
+/// lower case hexadecimal with exactly `n` digits
+fn hex_fixed(n: u32, v: u64) -> Vec<u8> {
+    let mut out = vec![];
+    for i in (0..n).rev() {
+        let d = (v >> (4 * i)) & 15;
+        out.push(b"0123456789abcdef"[d as usize]);
+    }
+    out
+}
+
+fn hex_string(upper: bool, s: &[u8]) -> Vec<u8> {
+    let digits: &[u8; 16] = if upper { b"0123456789ABCDEF" } else { b"0123456789abcdef" };
+    let mut out = vec![];
+    for b in s {
+        out.push(digits[(b / 16) as usize]);
+        out.push(digits[(b % 16) as usize]);
+    }
+    out
+}
+
+fn join_with(sep: u8, parts: &[Vec<u8>]) -> Vec<u8> {
+    let mut out = vec![];
+    for (i, p) in parts.iter().enumerate() {
+        if i > 0 {
+            out.push(sep);
+        }
+        out.extend_from_slice(p);
+    }
+    out
+}
+
+fn color_spec_print(spec: &ColorSpec) -> Vec<u8> {
+    match spec {
+        ColorSpec::Hash(r, g, b) => cat(&[b"#", &hex_fixed(2, *r), &hex_fixed(2, *g), &hex_fixed(2, *b)]),
+        ColorSpec::Rgb(r, g, b) => cat(&[
+            b"rgb:",
+            &hex_fixed(r.digits, r.value),
+            b"/",
+            &hex_fixed(g.digits, g.value),
+            b"/",
+            &hex_fixed(b.digits, b.value),
+        ]),
+    }
+}
+
+fn role_code(role: u64) -> u64 {
+    match role {
+        0 => 38,
+        1 => 48,
+        _ => 58,
+    }
+}
+
+fn sgr_item_print(it: &SgrItem) -> Vec<u8> {
+    match it {
+        SgrItem::Reset => b"0".to_vec(),
+        SgrItem::Bold(true) => b"1".to_vec(),
+        SgrItem::Bold(false) => b"22".to_vec(),
+        SgrItem::Italic(true) => b"3".to_vec(),
+        SgrItem::Italic(false) => b"23".to_vec(),
+        SgrItem::Blink(true) => b"5".to_vec(),
+        SgrItem::Blink(false) => b"25".to_vec(),
+        SgrItem::Strike(true) => b"9".to_vec(),
+        SgrItem::Strike(false) => b"29".to_vec(),
+        SgrItem::Underline(0) => b"24".to_vec(),
+        SgrItem::Underline(1) => b"4".to_vec(),
+        SgrItem::Underline(s) => cat(&[b"4:", &num(*s)]),
+        SgrItem::Rgb { role, r, g, b, form } => {
+            let (sep, intro): (&[u8], &[u8]) = match form {
+                ColorForm::Semi => (b";", b";2;"),
+                ColorForm::Colon => (b":", b":2:"),
+                ColorForm::ColonSpace => (b":", b":2::"),
+            };
+            cat(&[&num(role_code(*role)), intro, &num(*r), sep, &num(*g), sep, &num(*b)])
+        }
+    }
+}
+
+fn sgr_params(items: &[SgrItem]) -> Vec<u8> {
+    join_with(b';', &items.iter().map(sgr_item_print).collect::<Vec<_>>())
+}
+
+fn osc_number(name: &ColorName) -> Vec<u8> {
+    match name {
+        ColorName::Foreground => b"10".to_vec(),
+        ColorName::Background => b"11".to_vec(),
+        ColorName::Palette(i) => cat(&[b"4;", &num(*i)]),
+    }
+}
+
+/// the bytes of a message, according to the protocol documents
+pub fn print(m: &Msg) -> Vec<u8> {
+    match m {
+        Msg::Key(i) => keys().get(*i).map(|r| r.0.clone()).unwrap_or_default(),
+        Msg::Text(c) => utf8(*c),
+        Msg::Mouse { code, x, y, press } => {
+            cat(&[CSI, b"<", &num(*code), b";", &num(*x), b";", &num(*y), if *press { b"M" } else { b"m" }])
+        }
+        Msg::Cursor { row, col } => cat(&[CSI, &num(*row), b";", &num(*col), b"R"]),
+        Msg::Size { ch, cw, ph, pw } => cat(&[
+            CSI, b"8;", &num(*ch), b";", &num(*cw), b"t", CSI, b"4;", &num(*ph), b";", &num(*pw), b"t",
+        ]),
+        Msg::DecMode { mode_number, status_number } => {
+            cat(&[CSI, b"?", &num(*mode_number), b";", &num(*status_number), b"$y"])
+        }
+        Msg::DeviceAttrs { attrs, trailing } => cat(&[
+            CSI,
+            b"?",
+            &join_with(b';', &attrs.iter().map(|a| num(*a)).collect::<Vec<_>>()),
+            if *trailing { b";" } else { b"" },
+            b"c",
+        ]),
+        Msg::Color { name, spec, fin } => cat(&[
+            b"\x1b]",
+            &osc_number(name),
+            b";",
+            &color_spec_print(spec),
+            match fin {
+                OscEnd::St => ST,
+                OscEnd::Bel => b"\x07",
+            },
+        ]),
+        Msg::FaceReport(items) => cat(&[b"\x1bP1$r", &sgr_params(items), b"m", ST]),
+        Msg::TermcapOk { entries, upper } => cat(&[
+            b"\x1bP1+r",
+            &join_with(
+                b';',
+                &entries
+                    .iter()
+                    .map(|(k, v)| cat(&[&hex_string(*upper, k), b"=", &hex_string(*upper, v)]))
+                    .collect::<Vec<_>>(),
+            ),
+            ST,
+        ]),
+        Msg::TermcapFail { names, upper } => cat(&[
+            b"\x1bP0+r",
+            &join_with(b';', &names.iter().map(|n| hex_string(*upper, n)).collect::<Vec<_>>()),
+            ST,
+        ]),
+        Msg::KeyboardLevel(flags) => cat(&[CSI, b"?", &num(*flags), b"u"]),
+        Msg::CsiU { code, alts, mods } => {
+            let mut codes = vec![num(*code)];
+            codes.extend(alts.iter().map(|a| num(*a)));
+            let mods = match mods {
+                Some(m) => cat(&[b";", &num(m + 1)]),
+                None => vec![],
+            };
+            cat(&[CSI, &join_with(b':', &codes), &mods, b"u"])
+        }
+        Msg::KittyImage { id, placement, error } => cat(&[
+            b"\x1b_Gi=",
+            &num(*id),
+            &match placement {
+                Some(p) => cat(&[b",p=", &num(*p)]),
+                None => vec![],
+            },
+            b";",
+            match error {
+                Some(msg) => msg,
+                None => b"OK",
+            },
+            ST,
+        ]),
+        Msg::Paste(text) => cat(&[CSI, b"200~", text, CSI, b"201~"]),
+        Msg::Sgr(items) => cat(&[CSI, &sgr_params(items), b"m"]),
+    }
+}
+
+/* ================================================================ meaning */
+
+#[derive(Clone, Debug, Default, PartialEq, Eq)]
+struct FMod {
+    reset: bool,
+    fg: Option<(u64, u64, u64)>,
+    bg: Option<(u64, u64, u64)>,
+    underline: Option<u64>,
+    underline_color: Option<(u64, u64, u64)>,
+    bold: Option<bool>,
+    italic: Option<bool>,
+    blink: Option<bool>,
+    strike: Option<bool>,
+}
+
+/// the record of requested changes after the items, left to right (`0` forgets everything before it)
+fn sgr_meaning(items: &[SgrItem]) -> FMod {
+    let mut m = FMod::default();
+    for it in items {
+        match it {
+            SgrItem::Reset => m = FMod { reset: true, ..FMod::default() },
+            SgrItem::Bold(on) => m.bold = Some(*on),
+            SgrItem::Italic(on) => m.italic = Some(*on),
+            SgrItem::Blink(on) => m.blink = Some(*on),
+            SgrItem::Strike(on) => m.strike = Some(*on),
+            SgrItem::Underline(s) => m.underline = Some(*s),
+            SgrItem::Rgb { role: 0, r, g, b, .. } => m.fg = Some((*r, *g, *b)),
+            SgrItem::Rgb { role: 1, r, g, b, .. } => m.bg = Some((*r, *g, *b)),
+            SgrItem::Rgb { r, g, b, .. } => m.underline_color = Some((*r, *g, *b)),
+        }
+    }
+    m
+}
+
+fn rgb_tok(c: Option<(u64, u64, u64)>) -> String {
+    match c {
+        None => "-".into(),
+        Some((r, g, b)) => format!("{r},{g},{b},255"),
+    }
+}
+fn tri(v: Option<bool>) -> &'static str {
+    match v {
+        None => "-",
+        Some(true) => "1",
+        Some(false) => "0",
+    }
+}
+fn bit(v: bool) -> &'static str {
+    if v { "1" } else { "0" }
+}
+
+fn sgr_text(m: &FMod) -> String {
+    format!(
+        "sgr:{}/{}/{}/{}/{}/{}{}{}{}",
+        bit(m.reset),
+        rgb_tok(m.fg),
+        rgb_tok(m.bg),
+        m.underline.map(|u| u.to_string()).unwrap_or("-".into()),
+        rgb_tok(m.underline_color),
+        tri(m.bold),
+        tri(m.italic),
+        tri(m.blink),
+        tri(m.strike)
+    )
+}
+
+/// SGR semantics of a record of changes on the default rendition
+fn face_text(m: &FMod) -> String {
+    format!(
+        "face:{}/{}/{}/{}{}{}{}{}",
+        rgb_tok(m.fg),
+        rgb_tok(m.bg),
+        m.underline.unwrap_or(0),
+        bit(m.bold.unwrap_or(false)),
+        bit(m.italic.unwrap_or(false)),
+        bit(m.blink.unwrap_or(false)),
+        bit(false),
+        bit(m.strike.unwrap_or(false))
+    )
+}
+
+fn hex_or_dash(b: &[u8]) -> String {
+    hex(b)
+}
+
+/// sorted map, later entry wins
+fn termcap_text(entries: &[(Vec<u8>, Option<Vec<u8>>)]) -> String {
+    let mut map: BTreeMap<Vec<u8>, Option<Vec<u8>>> = BTreeMap::new();
+    for (k, v) in entries {
+        map.insert(k.clone(), v.clone());
+    }
+    if map.is_empty() {
+        return "termcap:-".into();
+    }
+    let items: Vec<String> = map
+        .iter()
+        .map(|(k, v)| {
+            format!("{}={}", hex_or_dash(k), match v {
+                None => "!".to_string(),
+                Some(v) => hex_or_dash(v),
+            })
+        })
+        .collect();
+    format!("termcap:{}", items.join(";"))
+}
+
+/// canonical text of the event a message denotes
+pub fn meaning(m: &Msg) -> String {
+    match m {
+        Msg::Key(i) => {
+            let (v, p, md) = keys().get(*i).map(|r| r.1).unwrap_or((K_ESC, 0, 0));
+            format!("key:{v}.{p}.{md}")
+        }
+        Msg::Text(c) => format!("key:{K_CHAR}.{c}.0"),
+        Msg::Mouse { code, x, y, press } => format!(
+            "mouse:{}.0.{}@{},{}",
+            button_name(*code),
+            code / 4 % 8 + if *press { MOD_PRESS } else { 0 },
+            y.saturating_sub(1),
+            x.saturating_sub(1)
+        ),
+        Msg::Cursor { row, col } => format!("cpr:{},{}", row.saturating_sub(1), col.saturating_sub(1)),
+        Msg::Size { ch, cw, ph, pw } => format!("size:{ch},{cw},{ph},{pw}"),
+        Msg::DecMode { mode_number, status_number } => format!("decmode:{mode_number},{status_number}"),
+        Msg::DeviceAttrs { attrs, .. } => {
+            let set: BTreeSet<u64> = attrs.iter().copied().collect();
+            if set.is_empty() {
+                "da:-".into()
+            } else {
+                format!("da:{}", set.iter().map(|a| a.to_string()).collect::<Vec<_>>().join(","))
+            }
+        }
+        Msg::Color { name, spec, .. } => {
+            let name = match name {
+                ColorName::Foreground => "fg".to_string(),
+                ColorName::Background => "bg".to_string(),
+                ColorName::Palette(i) => format!("p{i}"),
+            };
+            let (r, g, b) = match spec {
+                ColorSpec::Hash(r, g, b) => (*r, *g, *b),
+                ColorSpec::Rgb(r, g, b) => (r.byte(), g.byte(), b.byte()),
+            };
+            format!("color:{name}={r},{g},{b},255")
+        }
+        Msg::FaceReport(items) => face_text(&sgr_meaning(items)),
+        Msg::TermcapOk { entries, .. } => {
+            termcap_text(&entries.iter().map(|(k, v)| (k.clone(), Some(v.clone()))).collect::<Vec<_>>())
+        }
+        Msg::TermcapFail { names, .. } => {
+            termcap_text(&names.iter().map(|k| (k.clone(), None)).collect::<Vec<_>>())
+        }
+        Msg::KeyboardLevel(flags) => format!("kbd:{flags}"),
+        Msg::CsiU { code, mods, .. } => {
+            let (v, p) = csi_u_name(*code);
+            format!("key:{v}.{p}.{}", mods.unwrap_or(0))
+        }
+        Msg::KittyImage { id, placement, error } => format!(
+            "kitty:{id},{},{}",
+            placement.map(|p| p.to_string()).unwrap_or("-".into()),
+            match error {
+                None => "ok".to_string(),
+                Some(msg) => format!("e{}", hex(msg)),
+            }
+        ),
+        Msg::Paste(text) => format!("paste:{}", hex(text)),
+        Msg::Sgr(items) => sgr_text(&sgr_meaning(items)),
+    }
+}
+
+/// what the stream oracle expects for one message: its meaning, except for the documented ambiguity
+/// `CSI 1 ; n R` (n = 2..8) = F3 with modifiers n-1
+pub fn expected_event(m: &Msg) -> String {
+    match m {
+        Msg::Cursor { row: 1, col } if (2..=8).contains(col) => format!("key:{K_F}.3.{}", col - 1),
+        _ => meaning(m),
+    }
+}
+
+/* ================================================================ wire (request of `proto msg`) */
+
+fn wire_items(items: &[SgrItem]) -> String {
+    if items.is_empty() {
+        return "-".into();
+    }
+    let b = |on: &bool| if *on { "1" } else { "0" };
+    items
+        .iter()
+        .map(|it| match it {
+            SgrItem::Reset => "reset".to_string(),
+            SgrItem::Bold(on) => format!("bold{}", b(on)),
+            SgrItem::Italic(on) => format!("italic{}", b(on)),
+            SgrItem::Blink(on) => format!("blink{}", b(on)),
+            SgrItem::Strike(on) => format!("strike{}", b(on)),
+            SgrItem::Underline(s) => format!("ul{s}"),
+            SgrItem::Rgb { role, r, g, b, form } => format!(
+                "rgb{role}.{r}.{g}.{b}.{}",
+                match form {
+                    ColorForm::Semi => "s",
+                    ColorForm::Colon => "c",
+                    ColorForm::ColonSpace => "cs",
+                }
+            ),
+        })
+        .collect::<Vec<_>>()
+        .join(",")
+}
+
+fn wire_list(xs: &[u64]) -> String {
+    if xs.is_empty() { "-".into() } else { xs.iter().map(|x| x.to_string()).collect::<Vec<_>>().join(",") }
+}
+
+pub fn wire(m: &Msg) -> String {
+    let b = |v: bool| if v { 1 } else { 0 };
+    match m {
+        Msg::Key(i) => format!("key {i}"),
+        Msg::Text(c) => format!("text {c}"),
+        Msg::Mouse { code, x, y, press } => format!("mouse {code} {x} {y} {}", b(*press)),
+        Msg::Cursor { row, col } => format!("cursor {row} {col}"),
+        Msg::Size { ch, cw, ph, pw } => format!("size {ch} {cw} {ph} {pw}"),
+        Msg::DecMode { mode_number, status_number } => format!("decmode {mode_number} {status_number}"),
+        Msg::DeviceAttrs { attrs, trailing } => format!("da {} {}", b(*trailing), wire_list(attrs)),
+        Msg::Color { name, spec, fin } => {
+            let name = match name {
+                ColorName::Foreground => "fg".to_string(),
+                ColorName::Background => "bg".to_string(),
+                ColorName::Palette(i) => format!("p{i}"),
+            };
+            let fin = match fin {
+                OscEnd::St => "st",
+                OscEnd::Bel => "bel",
+            };
+            match spec {
+                ColorSpec::Hash(r, g, b) => format!("color {name} {fin} hash {r} {g} {b}"),
+                ColorSpec::Rgb(r, g, b) => format!(
+                    "color {name} {fin} rgb {}.{} {}.{} {}.{}",
+                    r.digits, r.value, g.digits, g.value, b.digits, b.value
+                ),
+            }
+        }
+        Msg::FaceReport(items) => format!("facereport {}", wire_items(items)),
+        Msg::Sgr(items) => format!("sgr {}", wire_items(items)),
+        Msg::TermcapOk { entries, upper } => format!(
+            "tcok {} {}",
+            b(*upper),
+            if entries.is_empty() {
+                "-".to_string()
+            } else {
+                entries.iter().map(|(k, v)| format!("{}={}", hex(k), hex(v))).collect::<Vec<_>>().join(";")
+            }
+        ),
+        Msg::TermcapFail { names, upper } => format!(
+            "tcfail {} {}",
+            b(*upper),
+            if names.is_empty() { "-".to_string() } else { names.iter().map(|k| hex(k)).collect::<Vec<_>>().join(";") }
+        ),
+        Msg::KeyboardLevel(flags) => format!("kbd {flags}"),
+        Msg::CsiU { code, alts, mods } => {
+            format!("csiu {code} {} {}", wire_list(alts), mods.map(|m| m.to_string()).unwrap_or("-".into()))
+        }
+        Msg::KittyImage { id, placement, error } => format!(
+            "kitty {id} {} {}",
+            placement.map(|p| p.to_string()).unwrap_or("-".into()),
+            match error {
+                None => "ok".to_string(),
+                Some(msg) => format!("e{}", hex(msg)),
+            }
+        ),
+        Msg::Paste(text) => format!("paste {}", hex(text)),
+    }
+}
+
+/* ================================================================ generators */
+
+const COORDS: [u64; 14] = [1, 2, 9, 10, 99, 100, 255, 256, 999, 1000, 9999, 10000, 65534, 65535];
+
+fn coord(rng: &mut Rng) -> u64 {
+    if rng.chance(1, 2) { *rng.pick(&COORDS) } else { rng.range(1, 65535) as u64 }
+}
+
+fn size_val(rng: &mut Rng) -> u64 {
+    if rng.chance(1, 10) { 0 } else { coord(rng) }
+}
+
+fn byte_val(rng: &mut Rng) -> u64 {
+    if rng.chance(1, 2) { *rng.pick(&[0u64, 1, 2, 9, 10, 99, 100, 127, 128, 254, 255]) } else { rng.below(256) }
+}
+
+fn gen_channel(rng: &mut Rng, digits: u32) -> Channel {
+    let max = (1u64 << (4 * digits)) - 1;
+    let top = 8u64 << (4 * (digits - 1));
+    let value = match rng.below(8) {
+        0 => 0,
+        1 => 1.min(max),
+        2 => max,
+        3 => top,
+        4 => top - 1,
+        5 => max - 1,
+        _ => rng.below(max + 1),
+    };
+    Channel { digits, value }
+}
+
+fn gen_color_name(rng: &mut Rng) -> ColorName {
+    match rng.below(3) {
+        0 => ColorName::Foreground,
+        1 => ColorName::Background,
+        _ => ColorName::Palette(if rng.chance(1, 3) { *rng.pick(&[0u64, 1, 9, 10, 15, 16, 99, 100, 231, 232, 255]) } else { rng.below(256) }),
+    }
+}
+
+fn gen_color(rng: &mut Rng) -> Msg {
+    let name = gen_color_name(rng);
+    let spec = if rng.chance(1, 5) {
+        ColorSpec::Hash(byte_val(rng), byte_val(rng), byte_val(rng))
+    } else {
+        let d = 1 + rng.below(4) as u32;
+        let same = rng.chance(1, 2);
+        let ch = |rng: &mut Rng| {
+            let digits = if same { d } else { 1 + rng.below(4) as u32 };
+            gen_channel(rng, digits)
+        };
+        ColorSpec::Rgb(ch(rng), ch(rng), ch(rng))
+    };
+    let fin = if rng.chance(1, 2) { OscEnd::St } else { OscEnd::Bel };
+    Msg::Color { name, spec, fin }
+}
+
+fn gen_sgr_item(rng: &mut Rng) -> SgrItem {
+    match rng.below(7) {
+        0 => SgrItem::Reset,
+        1 => SgrItem::Bold(rng.chance(1, 2)),
+        2 => SgrItem::Italic(rng.chance(1, 2)),
+        3 => SgrItem::Blink(rng.chance(1, 2)),
+        4 => SgrItem::Strike(rng.chance(1, 2)),
+        5 => SgrItem::Underline(rng.below(6)),
+        _ => SgrItem::Rgb {
+            role: rng.below(3),
+            r: byte_val(rng),
+            g: byte_val(rng),
+            b: byte_val(rng),
+            form: *rng.pick(&[ColorForm::Semi, ColorForm::Colon, ColorForm::ColonSpace]),
+        },
+    }
+}
+
+fn gen_sgr_items(rng: &mut Rng, min: u64, max: u64) -> Vec<SgrItem> {
+    let n = min + rng.below(max - min + 1);
+    (0..n).map(|_| gen_sgr_item(rng)).collect()
+}
+
+fn is_scalar(c: u64) -> bool {
+    c < 0xD800 || (0xE000..0x110000).contains(&c)
+}
+
+/// printable scalar: >= 0x20, != 0x7f, not a surrogate
+fn gen_text_char(rng: &mut Rng) -> u32 {
+    match rng.below(10) {
+        0..=4 => 0x20 + rng.below(0x5f) as u32,
+        5 | 6 => *rng.pick(&[
+            0x20u32, 0x7e, 0x80, 0x9f, 0xa0, 0x7ff, 0x800, 0xffff, 0x10000, 0x10ffff, 0xd7ff, 0xe000, 0xfffd, 0x1f600,
+            0x5b, 0x4f, 0x5d, 0x50, 0x5f, 0x30, 0x3b, 0x7e,
+        ]),
+        _ => loop {
+            let c = rng.below(0x110000);
+            if is_scalar(c) && c >= 0x20 && c != 0x7f {
+                break c as u32;
+            }
+        },
+    }
+}
+
+/// valid UTF-8 without ESC, at most `max` bytes: ASCII, newlines, tabs, BEL, NUL, multi-byte characters
+fn gen_utf8_text(rng: &mut Rng, max: usize) -> Vec<u8> {
+    let target = rng.below(max as u64 + 1) as usize;
+    let mut out = vec![];
+    loop {
+        let c: u32 = match rng.below(12) {
+            0..=5 => 0x20 + rng.below(0x5f) as u32,
+            6 => *rng.pick(&[b'\n', b'\t', b'\r', 7, 0, 8, 0x7f, 0x1a, 0x1c]) as u32,
+            7 => *rng.pick(&[b';', b'=', b',', b'[', b'~', b'\\', b'O', b'K', b':']) as u32,
+            8 | 9 => *rng.pick(&[0x80u32, 0xe9, 0x7ff, 0x800, 0x20ac, 0xffff, 0xfffd, 0x10000, 0x1f600, 0x10ffff, 0xd7ff, 0xe000]),
+            _ => loop {
+                let c = rng.below(0x110000);
+                if is_scalar(c) && c != 0x1b {
+                    break c as u32;
+                }
+            },
+        };
+        let enc = utf8(c);
+        if out.len() + enc.len() > target {
+            break;
+        }
+        out.extend(enc);
+    }
+    out
+}
+
+fn gen_paste(rng: &mut Rng) -> Msg {
+    let mut text = gen_utf8_text(rng, 40);
+    if rng.chance(1, 5) {
+        // the terminator without its ESC, and friends
+        let choices: [&[u8]; 6] = [b"[201~", b"[200~", b"201~", b"[201", b"[A", b"\\"];
+        let ins: &[u8] = *rng.pick(&choices);
+        let mut at = rng.below(text.len() as u64 + 1) as usize;
+        while at < text.len() && (text[at] & 0xC0) == 0x80 {
+            at += 1;
+        }
+        let tail = text.split_off(at);
+        text.extend_from_slice(ins);
+        text.extend(tail);
+    }
+    Msg::Paste(text)
+}
+
+fn gen_kitty(rng: &mut Rng) -> Msg {
+    let id = if rng.chance(2, 3) { *rng.pick(&[1u64, 2, 255, 65535, 4294967295]) } else { rng.below(1 << 32) };
+    let placement = if rng.chance(1, 2) {
+        None
+    } else {
+        Some(if rng.chance(1, 2) { *rng.pick(&[0u64, 1, 2, 255, 65535, 4294967295]) } else { rng.below(1 << 32) })
+    };
+    let error = match rng.below(6) {
+        0 | 1 => None,
+        2 => Some(
+            rng.pick(&[
+                &b"ENOENT:no such image"[..],
+                b"EINVAL:bad; value",
+                b"ENOENT:Put command refers to non-existent image with id: 1 and number: 0",
+                b"EBADF:\xe2\x82\xac",
+                b"OK ",
+                b"ok",
+                b"O",
+                b"OKOK",
+                b";OK",
+            ])
+            .to_vec(),
+        ),
+        3 => Some(if rng.chance(1, 3) { vec![] } else { gen_utf8_text(rng, 4) }),
+        _ => Some(gen_utf8_text(rng, 24)),
+    };
+    let error = match error {
+        Some(e) if e == b"OK" => Some(b"OK!".to_vec()),
+        e => e,
+    };
+    Msg::KittyImage { id, placement, error }
+}
+
+const TC_NAMES: [&[u8]; 10] = [b"Co", b"TN", b"colors", b"RGB", b"Ms", b"Se", b"Ss", b"kD", b"name", b"Tc"];
+
+fn gen_tc_name(rng: &mut Rng) -> Vec<u8> {
+    if rng.chance(1, 2) {
+        rng.pick(&TC_NAMES).to_vec()
+    } else {
+        let n = 1 + rng.below(6);
+        (0..n).map(|_| if rng.chance(1, 4) { *rng.pick(&[0u8, 0x1b, 0x7f, 0x80, 0xff, b';', b'=']) } else { rng.below(256) as u8 }).collect()
+    }
+}
+
+fn gen_tc_value(rng: &mut Rng) -> Vec<u8> {
+    if rng.chance(1, 3) {
+        rng.pick(&[&b"256"[..], b"xterm-kitty", b"8", b"\x1b[%p1%dm", b"\x1b]52;c;%p2%s\x07"]).to_vec()
+    } else {
+        let n = 1 + rng.below(10);
+        (0..n).map(|_| rng.below(256) as u8).collect()
+    }
+}
+
+fn gen_termcap(rng: &mut Rng) -> Msg {
+    let upper = rng.chance(1, 3);
+    let mut names: Vec<Vec<u8>> = vec![];
+    let pick_name = |rng: &mut Rng, names: &mut Vec<Vec<u8>>| {
+        let n = if !names.is_empty() && rng.chance(1, 4) { rng.pick(names).clone() } else { gen_tc_name(rng) };
+        names.push(n.clone());
+        n
+    };
+    if rng.chance(1, 2) {
+        let n = rng.below(5);
+        let entries = (0..n).map(|_| (pick_name(rng, &mut names), gen_tc_value(rng))).collect();
+        Msg::TermcapOk { entries, upper }
+    } else {
+        let n = 1 + rng.below(4);
+        let list = (0..n).map(|_| pick_name(rng, &mut names)).collect();
+        Msg::TermcapFail { names: list, upper }
+    }
+}
+
+fn gen_csi_u(rng: &mut Rng) -> Msg {
+    let scalar = |rng: &mut Rng| loop {
+        let c = rng.below(0x110000);
+        if is_scalar(c) && !((57344..=63743).contains(&c) && !(57376..=57398).contains(&c)) {
+            break c;
+        }
+    };
+    let code = match rng.below(8) {
+        0 => *rng.pick(&[27u64, 13, 9, 127]),
+        1 => 57376 + rng.below(23),
+        2 | 3 => b'a' as u64 + rng.below(26),
+        4 => *rng.pick(&[0u64, 1, 32, 48, 65, 126, 128, 255, 256, 0xd7ff, 57344 + 32, 63744, 0xfffd, 0x10000, 0x10ffff]),
+        _ => scalar(rng),
+    };
+    let alts = (0..rng.below(3)).map(|_| if rng.chance(1, 2) { b'A' as u64 + rng.below(26) } else { scalar(rng) }).collect();
+    let mods = match rng.below(4) {
+        0 => None,
+        1 => Some(0),
+        _ => Some(if rng.chance(1, 3) { *rng.pick(&[1u64, 2, 3, 4, 5, 7, 8, 16, 32, 64, 128, 255]) } else { rng.below(256) }),
+    };
+    Msg::CsiU { code, alts, mods }
+}
+
+fn gen_family(rng: &mut Rng, fam: usize) -> Msg {
+    match fam {
+        0 => Msg::Key(rng.below(keys().len() as u64) as usize),
+        1 => {
+            if rng.chance(1, 8) {
+                // around the documented F3 overlap
+                Msg::Cursor { row: 1, col: 1 + rng.below(9) }
+            } else {
+                Msg::Cursor { row: coord(rng), col: coord(rng) }
+            }
+        }
+        2 => Msg::DecMode {
+            mode_number: *rng.pick(&[25u64, 7, 80, 1000, 1003, 1006, 1049, 2026, 2004]),
+            status_number: rng.below(5),
+        },
+        3 => {
+            let n = 1 + rng.below(8);
+            let attrs = (0..n)
+                .map(|_| if rng.chance(1, 2) { *rng.pick(&[1u64, 4, 22, 62, 64, 999]) } else { 1 + rng.below(999) })
+                .collect();
+            Msg::DeviceAttrs { attrs, trailing: rng.chance(1, 4) }
+        }
+        4 => Msg::Sgr(gen_sgr_items(rng, 1, 6)),
+        5 => gen_kitty(rng),
+        6 => {
+            if rng.chance(1, 2) {
+                let flags = match rng.below(6) {
+                    0 => *rng.pick(&[0u64, 1, 5, 15, 31, 255, 65535, 4294967295, 4294967296, u64::MAX]),
+                    _ => rng.below(32),
+                };
+                Msg::KeyboardLevel(flags)
+            } else {
+                gen_csi_u(rng)
+            }
+        }
+        7 => {
+            let code = if rng.chance(7, 8) { rng.below(128) } else { 128 + rng.below(128) };
+            Msg::Mouse { code, x: coord(rng), y: coord(rng), press: rng.chance(1, 2) }
+        }
+        8 => gen_color(rng),
+        9 => Msg::FaceReport(gen_sgr_items(rng, 0, 6)),
+        10 => gen_termcap(rng),
+        11 => Msg::Size { ch: size_val(rng), cw: size_val(rng), ph: size_val(rng), pw: size_val(rng) },
+        12 => Msg::Text(gen_text_char(rng)),
+        _ => gen_paste(rng),
+    }
+}
+
+/// the family uniformly among the 14, then the constructor, then parameters with boundaries over-weighted
+pub fn gen_msg(rng: &mut Rng) -> Msg {
+    let fam = rng.below(14) as usize;
+    gen_family(rng, fam)
+}
+
+/* ================================================================ the dumped automaton */
+
+type EvState = VerifDfaState<TerminalEvent>;
+
+/// number of a tag in the model's numbering (key code, `MATCHER_BASE + i`; an item that is not a key has none)
+fn tag_num(t: &VerifTag<TerminalEvent>) -> u64 {
+    match t {
+        VerifTag::Item(TerminalEvent::Key(k)) => events::key_code(k),
+        VerifTag::Item(_) => u64::MAX,
+        VerifTag::Matcher(i) => events::MATCHER_BASE + *i as u64,
+    }
+}
+
+struct Dfa {
+    states: Vec<EvState>,
+    trans: Vec<[u32; 256]>,
+}
+
+const NO: u32 = u32::MAX;
+
+impl Dfa {
+    fn new(states: Vec<EvState>) -> Dfa {
+        let trans = states
+            .iter()
+            .map(|s| {
+                let mut row = [NO; 256];
+                for (b, t) in &s.edges {
+                    row[*b as usize] = *t as u32;
+                }
+                row
+            })
+            .collect();
+        Dfa { states, trans }
+    }
+    fn run(&self, bytes: &[u8]) -> Option<usize> {
+        let mut s = 0usize;
+        if self.states.is_empty() {
+            return None;
+        }
+        for b in bytes {
+            let t = self.trans[s][*b as usize];
+            if t == NO {
+                return None;
+            }
+            s = t as usize;
+        }
+        Some(s)
+    }
+    /// a shortest word leading to every state
+    fn words(&self) -> Vec<Vec<u8>> {
+        let n = self.states.len();
+        let mut word: Vec<Option<Vec<u8>>> = vec![None; n];
+        if n == 0 {
+            return vec![];
+        }
+        word[0] = Some(vec![]);
+        let mut queue = std::collections::VecDeque::from([0usize]);
+        while let Some(s) = queue.pop_front() {
+            let w = word[s].clone().unwrap();
+            for (b, t) in &self.states[s].edges {
+                if word[*t].is_none() {
+                    let mut w2 = w.clone();
+                    w2.push(*b);
+                    word[*t] = Some(w2);
+                    queue.push_back(*t);
+                }
+            }
+        }
+        word.into_iter().map(|w| w.unwrap_or_default()).collect()
+    }
+}
+
+/* ================================================================ decoding with the real decoder */
+
+fn partition(rng: &mut Rng, data: &[u8], mode: u64) -> Vec<Vec<u8>> {
+    match mode {
+        0 => vec![data.to_vec()],
+        1 if data.is_empty() => vec![vec![]],
+        1 => data.iter().map(|b| vec![*b]).collect(),
+        _ => {
+            // arbitrary cuts, empty reads allowed
+            let mut out = Vec::new();
+            let mut pos = 0;
+            while pos < data.len() {
+                if rng.chance(1, 6) {
+                    out.push(vec![]);
+                }
+                let span = 1 + rng.below(8);
+                let n = 1 + rng.below(span) as usize;
+                let end = (pos + n).min(data.len());
+                out.push(data[pos..end].to_vec());
+                pos = end;
+            }
+            if rng.chance(1, 4) {
+                out.push(vec![]);
+            }
+            if out.is_empty() {
+                out.push(vec![]);
+            }
+            out
+        }
+    }
+}
+
+/// canonical texts of the events of a fresh `TTYEventDecoder` fed the chunks one read at a time
+fn decode_chunks(chunks: &[Vec<u8>]) -> Vec<String> {
+    let mut dec = TTYEventDecoder::new();
+    let mut out = Vec::new();
+    for chunk in chunks {
+        let mut items = Vec::new();
+        let r = guarded(|| {
+            let mut cur = Cursor::new(&chunk[..]);
+            let r = dec.decode_into(&mut cur, &mut items);
+            (r.is_ok(), cur.position() as usize)
+        });
+        out.extend(items.iter().map(show_event));
+        match r {
+            Ok((true, pos)) if pos == chunk.len() => {}
+            Ok((true, _)) => out.push("UNCONSUMED".into()),
+            Ok((false, _)) => out.push("ERROR".into()),
+            Err(()) => {
+                out.push("PANIC".into());
+                return out;
+            }
+        }
+    }
+    out
+}
+
+fn unhex(s: &str) -> Vec<u8> {
+    if s == "-" {
+        return vec![];
+    }
+    let b = s.as_bytes();
+    (0..b.len() / 2).filter_map(|i| u8::from_str_radix(std::str::from_utf8(&b[2 * i..2 * i + 2]).ok()?, 16).ok()).collect()
+}
+
+fn fnv(s: &str) -> u64 {
+    let mut h = 0xcbf29ce484222325u64;
+    for b in s.bytes() {
+        h ^= b as u64;
+        h = h.wrapping_mul(0x100000001b3);
+    }
+    h
+}
+
+/* ================================================================ context */
+
+struct Ctx {
+    dfa: Dfa,
+    /// indices into `proto_keys()` of the keys whose accepting state is not terminal
+    nonterminal: HashSet<usize>,
+    seen: HashSet<u64>,
+    /// remaining budget of `pay decode` / `proto msg` lines
+    budget: u64,
+    streams: u64,
+    samples: u64,
+}
+
+impl Ctx {
+    fn new(cfg: &Cfg) -> Ctx {
+        let dfa = Dfa::new(verif_c04::event_dfa());
+        let mut nonterminal = HashSet::new();
+        for (i, (bytes, _)) in keys().iter().enumerate() {
+            if let Some(s) = dfa.run(bytes) {
+                if dfa.states[s].accepting && !dfa.states[s].terminal {
+                    nonterminal.insert(i);
+                }
+            }
+        }
+        Ctx { dfa, nonterminal, seen: HashSet::new(), budget: if cfg.thorough { 600_000 } else { 150_000 }, streams: 0, samples: 0 }
+    }
+    fn is_nonterminal(&self, m: &Msg) -> bool {
+        matches!(m, Msg::Key(i) if self.nonterminal.contains(i))
+    }
+    /// a capped, de-duplicated correspondence line
+    fn corr(&mut self, out: &mut Out, request: String, answer: impl FnOnce() -> String) {
+        if self.budget == 0 || !self.seen.insert(fnv(&request)) {
+            return;
+        }
+        self.budget -= 1;
+        let a = answer();
+        out.corr(&request, &a);
+    }
+}
+
+/// Is the colour text outside the part of the colour parser the model covers (the model answers `ext`)?
+/// `events::color_external`, restricted like `SurfModel.Payload.rasterParse` to names that start with a
+/// lower case letter (`#…/alpha` forms start with `#`): texts such as `7` or `-b` are not names, the model
+/// and the implementation both reject them.
+fn color_ext(text: &[u8]) -> bool {
+    let body = match text.iter().rposition(|b| *b == b'/') {
+        None => text,
+        Some(i) => &text[..i],
+    };
+    events::color_external(text) && body.first().map(|b| *b == b'#' || b.is_ascii_lowercase()).unwrap_or(false)
+}
+
+/// answer of the real payload decoder of family `k` on a token
+fn real_decode(k: usize, bytes: &[u8]) -> String {
+    if k == 8 && guarded(|| events::osc_color_field(bytes).map(color_ext).unwrap_or(false)).unwrap_or(false) {
+        return "ext".into();
+    }
+    show_result(guarded(|| verif_c04::matcher_decode(k, bytes)).map(|o| o.map(|e| show_event(&e))))
+}
+
+/// one mutation of a token (the result need not match the grammar)
+fn mutate(rng: &mut Rng, tok: &[u8]) -> Vec<u8> {
+    for _ in 0..6 {
+        let mut t = tok.to_vec();
+        match rng.below(8) {
+            kind @ 0..=2 => {
+                // a numeric parameter becomes 0 / 20+ digits / nothing
+                let mut runs = vec![];
+                let mut i = 2;
+                while i < t.len() {
+                    if t[i].is_ascii_digit() {
+                        let s = i;
+                        while i < t.len() && t[i].is_ascii_digit() {
+                            i += 1;
+                        }
+                        runs.push((s, i));
+                    } else {
+                        i += 1;
+                    }
+                }
+                if runs.is_empty() {
+                    continue;
+                }
+                let (s, e) = *rng.pick(&runs);
+                let rep: Vec<u8> = match kind {
+                    0 => b"0".to_vec(),
+                    1 => {
+                        let n = 20 + rng.below(6);
+                        (0..n).map(|i| if i == 0 { b'1' + rng.below(9) as u8 } else { b'0' + rng.below(10) as u8 }).collect()
+                    }
+                    _ => vec![],
+                };
+                t.splice(s..e, rep);
+            }
+            3 => {
+                if t.len() >= 3 {
+                    t.remove(t.len() - 2);
+                }
+            }
+            4 => {
+                let pos: Vec<usize> = (0..t.len()).filter(|i| t[*i] == b';').collect();
+                if pos.is_empty() {
+                    continue;
+                }
+                let p = *rng.pick(&pos);
+                t.insert(p, b';');
+            }
+            5 => {
+                if t.len() < 4 {
+                    continue;
+                }
+                let p = 2 + rng.below(t.len() as u64 - 3) as usize;
+                let mut b = rng.below(128) as u8;
+                if b == 0x1b {
+                    b = b'?';
+                }
+                t[p] = b;
+            }
+            6 => {
+                if t.len() < 4 {
+                    continue;
+                }
+                let n = 2 + rng.below(t.len() as u64 - 2) as usize;
+                t.truncate(n);
+            }
+            _ => {
+                let pos: Vec<usize> = (0..t.len()).filter(|i| t[*i] == b'=').collect();
+                if pos.is_empty() {
+                    continue;
+                }
+                let p = *rng.pick(&pos);
+                t.remove(p);
+            }
+        }
+        if t != tok {
+            return t;
+        }
+    }
+    tok[..tok.len().min(2)].to_vec()
+}
+
+/// correspondence lines of one generated message
+fn msg_lines(ctx: &mut Ctx, out: &mut Out, rng: &mut Rng, m: &Msg) {
+    if ctx.budget == 0 {
+        return;
+    }
+    let k = family(m);
+    let bytes = print(m);
+    ctx.corr(out, format!("proto msg {}", wire(m)), || format!("{} {}", hex(&bytes), meaning(m)));
+    if k == 0 {
+        return;
+    }
+    ctx.corr(out, format!("pay decode {k} {}", hex(&bytes)), || real_decode(k, &bytes));
+    if k != 12 && rng.chance(1, 4) {
+        let t = mutate(rng, &bytes);
+        ctx.corr(out, format!("pay decode {k} {}", hex(&t)), || real_decode(k, &t));
+        out.hist("tie:mutated-token");
+    }
+}
+
+/* ================================================================ one stream */
+
+const WHAT_STREAM: &str = "decoded events differ from the events the stream encodes";
+const WHAT_CUT: &str = "decoded events depend on how the stream is cut into reads";
+
+fn chunks_json(chunks: &[Vec<u8>]) -> Value {
+    json!(chunks.iter().map(|c| hex(c)).collect::<Vec<_>>())
+}
+
+/// decode `stream` under the partitions and compare with `expected`; returns `true` when all agree
+fn check_stream(out: &mut Out, stream: &[u8], wires: &[String], expected: &[String], parts: &[Vec<Vec<u8>>]) -> bool {
+    let mut ok = true;
+    let mut first: Option<Vec<String>> = None;
+    let mut cut_reported = false;
+    for chunks in parts {
+        let got = decode_chunks(chunks);
+        if got != expected {
+            ok = false;
+            out.fail(
+                WHAT_STREAM,
+                json!({"stream": hex(stream), "msgs": wires, "partition": chunks_json(chunks), "expected": expected}),
+                json!(expected),
+                json!(got),
+            );
+        }
+        match &first {
+            None => first = Some(got),
+            Some(f) => {
+                if *f != got && !cut_reported {
+                    cut_reported = true;
+                    ok = false;
+                    out.fail(
+                        WHAT_CUT,
+                        json!({"stream": hex(stream), "msgs": wires, "partition": chunks_json(chunks), "expected": expected}),
+                        json!(f),
+                        json!(got),
+                    );
+                }
+            }
+        }
+    }
+    ok
+}
+
+/// a stream of messages: oracle under three partitions, statistics, correspondence lines
+fn run_case(ctx: &mut Ctx, out: &mut Out, rng: &mut Rng, msgs: &[Msg], expected_override: Option<Vec<String>>) {
+    let mut stream = vec![];
+    for m in msgs {
+        stream.extend(print(m));
+    }
+    let expected: Vec<String> = expected_override.unwrap_or_else(|| msgs.iter().map(expected_event).collect());
+    let wires: Vec<String> = msgs.iter().map(wire).collect();
+    let parts = vec![partition(rng, &stream, 0), partition(rng, &stream, 1), partition(rng, &stream, 2)];
+    check_stream(out, &stream, &wires, &expected, &parts);
+    let nontrivial = msgs.iter().any(|m| !matches!(family(m), 0 | 12));
+    out.case(&hex(&stream), nontrivial);
+    out.hist(&format!("len:{}", msgs.len()));
+    for m in msgs {
+        out.hist(&format!("family:{}", FAMILY_NAMES[family(m)]));
+        msg_lines(ctx, out, rng, m);
+    }
+    ctx.streams += 1;
+    if ctx.samples < 12 && msgs.len() >= 2 && nontrivial && ctx.streams % 97 == 5 {
+        ctx.samples += 1;
+        out.sample(json!({"stream": hex(&stream), "msgs": wires, "events": expected}));
+    }
+}
+
+/// may this message follow a key whose bytes are a proper prefix of other sequences?
+fn starts_safe(m: &Msg) -> bool {
+    match print(m).first() {
+        Some(b) => *b == 0x1b || *b >= 0x80 || *b < 0x20,
+        None => false,
+    }
+}
+
+fn gen_stream(ctx: &Ctx, rng: &mut Rng) -> Vec<Msg> {
+    let n = 1 + rng.below(12) as usize;
+    // one stream in ten is mostly text, so that reports sit between runs of plain characters
+    let texty = rng.chance(1, 10);
+    let mut msgs: Vec<Msg> = vec![];
+    loop {
+        let after_prefix_key = msgs.last().map(|m| ctx.is_nonterminal(m)).unwrap_or(false);
+        if msgs.len() >= n && !after_prefix_key {
+            break;
+        }
+        let m = loop {
+            let m = if texty && rng.chance(1, 2) { gen_family(rng, 12) } else { gen_msg(rng) };
+            if !after_prefix_key || starts_safe(&m) {
+                break m;
+            }
+        };
+        msgs.push(m);
+    }
+    msgs
+}
+
+/* ================================================================ key table tie */
+
+const WHAT_TABLE_DFA: &str = "literal key paths of the event automaton differ from the literal key table";
+const WHAT_TABLE_NAMES: &str = "literal key table differs from the naming table";
+const WHAT_TABLE_TAGS: &str = "a literal key state of the event automaton carries other tags";
+
+fn key_text(code: (u64, u64, u64)) -> String {
+    format!("key:{}.{}.{}", code.0, code.1, code.2)
+}
+
+fn table_rows() -> Vec<(Vec<u8>, Option<(u64, u64, u64)>, u64)> {
+    verif_c04::key_table()
+        .into_iter()
+        .map(|(bytes, ev)| match ev {
+            TerminalEvent::Key(k) => {
+                let (v, p) = events::key_name_variant(k.name);
+                (bytes, Some((v, p, events::mod_bits(k.mode))), events::key_code(&k))
+            }
+            _ => (bytes, None, u64::MAX),
+        })
+        .collect()
+}
+
+fn key_tie(ctx: &Ctx, out: &mut Out) {
+    let dfa = &ctx.dfa;
+    let n = dfa.states.len();
+    let is_item = |s: usize| dfa.states[s].accepting && matches!(dfa.states[s].tags.first(), Some(VerifTag::Item(_)));
+    // (i) all words accepted in a state whose least tag is an item
+    let mut rev: Vec<Vec<usize>> = vec![vec![]; n];
+    for (s, st) in dfa.states.iter().enumerate() {
+        for (_, t) in &st.edges {
+            rev[*t].push(s);
+        }
+    }
+    let mut live = vec![false; n];
+    let mut stack: Vec<usize> = (0..n).filter(|s| is_item(*s)).collect();
+    for s in &stack {
+        live[*s] = true;
+    }
+    while let Some(s) = stack.pop() {
+        for p in &rev[s] {
+            if !live[*p] {
+                live[*p] = true;
+                stack.push(*p);
+            }
+        }
+    }
+    // cycle check of the restricted graph (colours: 0 new, 1 open, 2 done), then enumeration
+    fn cyclic(dfa: &Dfa, live: &[bool], colour: &mut [u8], s: usize) -> bool {
+        colour[s] = 1;
+        for (_, t) in &dfa.states[s].edges {
+            if live[*t] && (colour[*t] == 1 || (colour[*t] == 0 && cyclic(dfa, live, colour, *t))) {
+                return true;
+            }
+        }
+        colour[s] = 2;
+        false
+    }
+    let rows = table_rows();
+    let table: BTreeSet<(Vec<u8>, u64)> = rows.iter().map(|(b, _, c)| (b.clone(), *c)).collect();
+    let mut colour = vec![0u8; n];
+    if n == 0 || !live[0] {
+        out.fail(WHAT_TABLE_DFA, json!({"kind": "keytable", "stream": "-"}), json!(format!("{} literal keys", table.len())), json!("no literal key state is reachable"));
+    } else if cyclic(dfa, &live, &mut colour, 0) {
+        out.fail(WHAT_TABLE_DFA, json!({"kind": "keytable", "stream": "-"}), json!("finitely many literal key sequences"), json!("a cycle leads to a literal key state"));
+    } else {
+        fn walk(dfa: &Dfa, live: &[bool], s: usize, word: &mut Vec<u8>, acc: &mut BTreeSet<(Vec<u8>, u64)>, budget: &mut u64) {
+            if *budget == 0 {
+                return;
+            }
+            let st = &dfa.states[s];
+            if st.accepting {
+                if let Some(t @ VerifTag::Item(_)) = st.tags.first() {
+                    acc.insert((word.clone(), tag_num(t)));
+                    *budget -= 1;
+                }
+            }
+            for (b, t) in &st.edges {
+                if live[*t] {
+                    word.push(*b);
+                    walk(dfa, live, *t, word, acc, budget);
+                    word.pop();
+                }
+            }
+        }
+        let mut words = BTreeSet::new();
+        let mut budget = 100_000u64;
+        walk(dfa, &live, 0, &mut vec![], &mut words, &mut budget);
+        for (bytes, code) in table.difference(&words) {
+            out.fail(
+                WHAT_TABLE_DFA,
+                json!({"kind": "keytable", "stream": hex(bytes)}),
+                json!(format!("accepted as literal key with code {code}")),
+                json!(match words.iter().find(|(b, _)| b == bytes) {
+                    Some((_, c)) => format!("accepted as literal key with code {c}"),
+                    None => "not a literal key path".to_string(),
+                }),
+            );
+        }
+        for (bytes, code) in words.difference(&table) {
+            if table.iter().any(|(b, _)| b == bytes) {
+                continue; // reported above
+            }
+            out.fail(
+                WHAT_TABLE_DFA,
+                json!({"kind": "keytable", "stream": hex(bytes)}),
+                json!("not in the literal key table"),
+                json!(format!("accepted as literal key with code {code}")),
+            );
+        }
+        out.extra("literal_key_paths", json!(words.len()));
+        out.case("keytable-dfa", true);
+        out.hist("tie:key-table");
+    }
+    // (ii) the naming table and the literal key table, as sets of (bytes, key)
+    let names: BTreeSet<(Vec<u8>, (u64, u64, u64))> = keys().iter().cloned().collect();
+    let mut by_bytes: BTreeMap<Vec<u8>, Vec<String>> = BTreeMap::new();
+    let mut impl_rows: BTreeSet<(Vec<u8>, (u64, u64, u64))> = BTreeSet::new();
+    for (bytes, key, _) in &rows {
+        by_bytes.entry(bytes.clone()).or_default().push(key.map(key_text).unwrap_or("not-a-key".into()));
+        if let Some(k) = key {
+            impl_rows.insert((bytes.clone(), *k));
+        } else {
+            out.fail(WHAT_TABLE_NAMES, json!({"kind": "keytable", "stream": hex(bytes)}), json!("a key"), json!("not-a-key"));
+        }
+    }
+    for (bytes, key) in names.difference(&impl_rows) {
+        out.fail(
+            WHAT_TABLE_NAMES,
+            json!({"kind": "keytable", "stream": hex(bytes)}),
+            json!(key_text(*key)),
+            json!(by_bytes.get(bytes).map(|v| v.join(" ")).unwrap_or("absent".into())),
+        );
+    }
+    for (bytes, key) in impl_rows.difference(&names) {
+        if names.iter().any(|(b, _)| b == bytes) {
+            continue; // reported above
+        }
+        out.fail(WHAT_TABLE_NAMES, json!({"kind": "keytable", "stream": hex(bytes)}), json!("absent from the naming table"), json!(key_text(*key)));
+    }
+    out.extra("naming_table", json!({"spellings": keys().len(), "distinct": names.len(), "literal_table": rows.len()}));
+    out.case("keytable-names", true);
+    out.hist("tie:key-table");
+    // (iii) literal key states carry one tag, except the documented F3 / CPR overlap
+    let words = dfa.words();
+    for (s, st) in dfa.states.iter().enumerate() {
+        if !st.tags.iter().any(|t| matches!(t, VerifTag::Item(_))) {
+            continue;
+        }
+        let overlap = st.tags.len() == 2
+            && matches!(&st.tags[0], VerifTag::Item(TerminalEvent::Key(k))
+                if events::key_name_variant(k.name) == (K_F, 3) && (1..=7).contains(&events::mod_bits(k.mode)))
+            && st.tags[1] == VerifTag::Matcher(1);
+        if !(st.accepting && (st.tags.len() == 1 || overlap)) {
+            out.fail(
+                WHAT_TABLE_TAGS,
+                json!({"kind": "keytable", "stream": hex(&words[s])}),
+                json!("one literal key (or F3 with modifiers + cursor position report)"),
+                json!(st.tags.iter().map(|t| tag_num(t).to_string()).collect::<Vec<_>>().join(",")),
+            );
+        }
+    }
+}
+
+/// oracle line of the self-delimiting condition and the set of prefix keys
+fn sd_line(ctx: &Ctx, out: &mut Out) {
+    let dfa = &ctx.dfa;
+    let mut codes: Vec<u64> = dfa
+        .states
+        .iter()
+        .filter(|s| s.accepting && !s.terminal)
+        .map(|s| s.tags.first().map(tag_num).unwrap_or(u64::MAX))
+        .collect();
+    let count = codes.len();
+    codes.sort();
+    let list = if codes.is_empty() { "-".to_string() } else { codes.iter().map(|c| c.to_string()).collect::<Vec<_>>().join(",") };
+    out.oracle(&format!("sd event | {}", dumps::show_table(&dfa.states, dumps::event_item_tag)), &format!("ok {count} {list}"));
+    out.hist("tie:self-delimiting");
+    let mut nt: Vec<usize> = ctx.nonterminal.iter().copied().collect();
+    nt.sort();
+    out.extra(
+        "nonterminal_keys",
+        json!(nt.iter().map(|i| json!({"bytes": hex(&keys()[*i].0), "key": key_text(keys()[*i].1)})).collect::<Vec<_>>()),
+    );
+}
+
+/* ================================================================ fixed correspondence lines */
+
+fn fixed_lines(out: &mut Out, rng: &mut Rng) {
+    for n in 0..=2100usize {
+        out.corr(&format!("pay decmode {n}"), &DecMode::from_usize(n).map(|m| (m as usize).to_string()).unwrap_or("none".into()));
+    }
+    for n in 0..=12usize {
+        out.corr(&format!("pay decstatus {n}"), &DecModeStatus::from_usize(n).map(|m| (m as usize).to_string()).unwrap_or("none".into()));
+    }
+    let ranges: [(u64, u64); 7] =
+        [(0, 200), (55290, 57350), (57370, 57400), (63740, 63750), (0x10fff0, 0x110010), (4294967290, 4294967300), (1 << 40, 1 << 40)];
+    for (lo, hi) in ranges {
+        for n in lo..=hi {
+            let a = match guarded(|| verif_c04::keyboard_decode_key(n as usize)) {
+                Err(()) => "panic".to_string(),
+                Ok(None) => "none".to_string(),
+                Ok(Some(k)) => {
+                    let (v, p) = events::key_name_variant(k);
+                    format!("{v}.{p}")
+                }
+            };
+            out.corr(&format!("pay kbdkey {n}"), &a);
+        }
+    }
+    out.hist("tie:payload-helpers");
+    // colour texts
+    let mut texts: Vec<Vec<u8>> = [
+        "", "#", "#fff", "#ffff", "#fffff", "#ffffff", "#FFFFFF", "#FfAa00", "#000000", "#gggggg", "#12345g", "#1234567",
+        "#12345678", "#123456789", "#ff000080", "#FF0000FF", "#ff0000/0.5", "#ff000080/0.5", "red", "blue", "red/0.5", "Red",
+        "dark-red", "rgb:", "rgb:/", "rgb://", "rgb:1/2", "rgb:1/2/3", "rgb:1/2/3/4", "rgb:1/2/3/", "rgb:/1/2", "rgb:1//2",
+        "rgb:1/2/", "RGB:1/2/3", "Rgb:1/2/3", "rgb:g/1/2", "rgb: 1/2/3", "rgb:-1/2/3", "rgb:1/-2/3", "rgb:+1/2/3", "rgb:+f/+f/+f",
+        "rgb:+/1/2", "rgb:+ff/0/0", "rgb:+fff/0/0", "rgb:+ffff/0/0", "rgb:12345/1/2", "rgb:1/12345/2", "rgb:1/2/12345",
+        "rgb:FFFF/AAAA/0000", "rgb:ffff/8080/0000", "rgb:FF/aa/0", "rgb:f/f/f", "rgb:ff/ff/ff", "rgb:fff/fff/fff", "rgb:ffff/ffff/ffff",
+        "rgb:0/0/0", "rgb:00/00/00", "rgb:000/000/000", "rgb:0000/0000/0000", "rgb:8/80/800", "rgb:8000/800/80", "rgb:7fff/7ff/7f",
+        "rgb:0ff/00f/f00", "rgb:100/0ff/010", "rgbi:1.0/0/0", "rgb:\u{e9}/1/2", "rgb:1/\u{20ac}/2", "rgb:1 /2/3", "rgb:1/2/3 ", " rgb:1/2/3",
+        "rgb:0x1/2/3", "rgb:1_0/2/3", "rgba:1/2/3/4", "hsl:1/2/3", "?", "rgb:ff/ff", "rgb:ff", "#rgb:1/2/3", "rgb:#/1/2", "a", "z9", "a-b",
+    ]
+    .iter()
+    .map(|s| s.as_bytes().to_vec())
+    .collect();
+    for _ in 0..30 {
+        texts.push(color_spec_print(&ColorSpec::Hash(byte_val(rng), byte_val(rng), byte_val(rng))));
+        let mut t = color_spec_print(&ColorSpec::Hash(byte_val(rng), byte_val(rng), byte_val(rng)));
+        t.extend(hex_fixed(2, byte_val(rng)));
+        if rng.chance(1, 3) {
+            t.make_ascii_uppercase();
+            t[0] = b'#';
+        }
+        texts.push(t);
+    }
+    for _ in 0..120 {
+        let d = [1 + rng.below(4) as u32, 1 + rng.below(4) as u32, 1 + rng.below(4) as u32];
+        let mut t = color_spec_print(&ColorSpec::Rgb(gen_channel(rng, d[0]), gen_channel(rng, d[1]), gen_channel(rng, d[2])));
+        if rng.chance(1, 4) {
+            t[4..].make_ascii_uppercase();
+        }
+        texts.push(t);
+    }
+    for _ in 0..70 {
+        let n = rng.below(13);
+        let t: Vec<u8> = (0..n)
+            .map(|_| if rng.chance(1, 3) { *rng.pick(b"#rgb:/+-0f") } else { 0x20 + rng.below(0x5f) as u8 })
+            .collect();
+        texts.push(t);
+    }
+    let mut seen = HashSet::new();
+    for t in texts {
+        if !seen.insert(t.clone()) {
+            continue;
+        }
+        let Ok(s) = std::str::from_utf8(&t) else { continue };
+        let a = if color_ext(&t) {
+            "ext".to_string()
+        } else {
+            match guarded(|| verif_c04::parse_color(s)) {
+                Err(()) => "panic".to_string(),
+                Ok(None) => "none".to_string(),
+                Ok(Some(c)) => events::rgba_tok(Some(c)),
+            }
+        };
+        out.corr(&format!("pay color {}", hex(&t)), &a);
+    }
+    out.hist("tie:payload-helpers");
+}
+
+/* ================================================================ white-box corpus */
+
+fn key_index(bytes: &[u8]) -> usize {
+    keys().iter().position(|r| r.0 == bytes).expect("spelling of the naming table")
+}
+
+fn ch(digits: u32, value: u64) -> Channel {
+    Channel { digits, value }
+}
+
+/// streams with the expectation computed from `expected_event`
+fn corpus(ctx: &Ctx) -> Vec<(Vec<Msg>, Option<Vec<String>>)> {
+    let mut c: Vec<(Vec<Msg>, Option<Vec<String>>)> = vec![];
+    let mut one = |m: Msg| c.push((vec![m], None));
+    // the documented overlap and its neighbourhood; coordinates at both ends
+    for col in 1..=9 {
+        one(Msg::Cursor { row: 1, col });
+    }
+    for (row, col) in [(2, 5), (1, 65535), (65535, 1), (65535, 65535), (10, 10), (2, 1), (11, 5), (1, 10), (1, 15)] {
+        one(Msg::Cursor { row, col });
+    }
+    for code in 0..=255u64 {
+        one(Msg::Mouse { code, x: 1 + code % 3, y: 1 + code % 5, press: code % 2 == 0 });
+        one(Msg::Mouse { code, x: 65535 - code, y: 1, press: code % 2 == 1 });
+    }
+    for (x, y) in [(1, 1), (65535, 65535), (1, 65535), (65535, 1), (10, 100)] {
+        one(Msg::Mouse { code: 0, x, y, press: true });
+        one(Msg::Mouse { code: 35, x, y, press: false });
+    }
+    for mode_number in [25u64, 7, 80, 1000, 1003, 1006, 1049, 2026, 2004] {
+        for status_number in 0..=4 {
+            one(Msg::DecMode { mode_number, status_number });
+        }
+    }
+    for (attrs, trailing) in [
+        (vec![1u64], false),
+        (vec![1], true),
+        (vec![62, 4, 22], false),
+        (vec![64, 1, 2, 4, 6, 9, 15, 22], true),
+        (vec![999, 1, 999, 4, 1], false),
+        (vec![62], false),
+    ] {
+        one(Msg::DeviceAttrs { attrs, trailing });
+    }
+    // colours: the example of the task, every digit count at both ends, palette ends, hash form
+    for fin in [OscEnd::Bel, OscEnd::St] {
+        one(Msg::Color { name: ColorName::Background, spec: ColorSpec::Rgb(ch(4, 0xffff), ch(4, 0x8080), ch(4, 0)), fin });
+        for d in 1..=4u32 {
+            let max = (1u64 << (4 * d)) - 1;
+            for v in [0, 1, max / 2, max / 2 + 1, max - 1, max] {
+                one(Msg::Color { name: ColorName::Foreground, spec: ColorSpec::Rgb(ch(d, v), ch(d, max - v), ch(d, v)), fin });
+            }
+        }
+        one(Msg::Color { name: ColorName::Palette(0), spec: ColorSpec::Hash(0, 0, 0), fin });
+        one(Msg::Color { name: ColorName::Palette(255), spec: ColorSpec::Hash(255, 128, 1), fin });
+        one(Msg::Color { name: ColorName::Palette(7), spec: ColorSpec::Rgb(ch(1, 0xf), ch(2, 0x80), ch(3, 0xabc)), fin });
+        one(Msg::Color { name: ColorName::Foreground, spec: ColorSpec::Rgb(ch(4, 0x1234), ch(3, 0x123), ch(1, 1)), fin });
+    }
+    // SGR: every item alone, the three colour forms for every role, combinations
+    let mut items = vec![SgrItem::Reset];
+    for on in [true, false] {
+        items.extend([SgrItem::Bold(on), SgrItem::Italic(on), SgrItem::Blink(on), SgrItem::Strike(on)]);
+    }
+    for s in 0..=5 {
+        items.push(SgrItem::Underline(s));
+    }
+    for role in 0..=2 {
+        for form in [ColorForm::Semi, ColorForm::Colon, ColorForm::ColonSpace] {
+            items.push(SgrItem::Rgb { role, r: 0, g: 128, b: 255, form });
+            items.push(SgrItem::Rgb { role, r: 255, g: 1, b: 0, form });
+        }
+    }
+    for it in &items {
+        one(Msg::Sgr(vec![it.clone()]));
+        one(Msg::FaceReport(vec![it.clone()]));
+        one(Msg::Sgr(vec![SgrItem::Bold(true), it.clone(), SgrItem::Underline(3)]));
+        one(Msg::FaceReport(vec![SgrItem::Rgb { role: 0, r: 1, g: 2, b: 3, form: ColorForm::Semi }, it.clone(), SgrItem::Italic(true)]));
+    }
+    one(Msg::FaceReport(vec![]));
+    one(Msg::Sgr(items.clone()));
+    one(Msg::FaceReport(items));
+    // termcap
+    one(Msg::TermcapOk { entries: vec![], upper: false });
+    one(Msg::TermcapOk { entries: vec![(b"Co".to_vec(), b"256".to_vec())], upper: false });
+    one(Msg::TermcapOk { entries: vec![(b"Co".to_vec(), b"256".to_vec())], upper: true });
+    one(Msg::TermcapOk {
+        entries: vec![(b"TN".to_vec(), b"xterm-kitty".to_vec()), (b"Co".to_vec(), b"8".to_vec()), (b"TN".to_vec(), b"x".to_vec()), (vec![0xff, 0, 0x1b], vec![0x1b, 0x5c, 0xfe])],
+        upper: true,
+    });
+    one(Msg::TermcapFail { names: vec![b"TN".to_vec()], upper: false });
+    one(Msg::TermcapFail { names: vec![b"colors".to_vec(), b"RGB".to_vec(), b"colors".to_vec(), vec![0xff]], upper: true });
+    // kitty keyboard
+    for flags in [0u64, 1, 5, 31, 65535, u64::MAX] {
+        one(Msg::KeyboardLevel(flags));
+    }
+    for code in [97u64, 122, 27, 13, 9, 127, 57376, 57398, 0, 32, 65, 0xd7ff, 0xe9, 63744, 0xfffd, 0x10ffff] {
+        for mods in [None, Some(0), Some(1), Some(4), Some(5), Some(255)] {
+            one(Msg::CsiU { code, alts: vec![], mods });
+        }
+        one(Msg::CsiU { code, alts: vec![65], mods: Some(2) });
+        one(Msg::CsiU { code, alts: vec![65, 0x10ffff], mods: None });
+    }
+    for mods in 0..=255u64 {
+        one(Msg::CsiU { code: 97 + mods % 26, alts: vec![], mods: Some(mods) });
+    }
+    // kitty graphics
+    one(Msg::KittyImage { id: 1, placement: None, error: None });
+    one(Msg::KittyImage { id: 4294967295, placement: Some(1), error: Some(b"ENOENT:no such image".to_vec()) });
+    one(Msg::KittyImage { id: 255, placement: Some(4294967295), error: None });
+    one(Msg::KittyImage { id: 65535, placement: None, error: Some(vec![]) });
+    one(Msg::KittyImage { id: 2, placement: None, error: Some(b"EINVAL:a;b=c,d \xe2\x82\xac\x07\n".to_vec()) });
+    // sizes
+    for v in [0u64, 1, 9, 10, 255, 256, 65535] {
+        one(Msg::Size { ch: v, cw: 65535 - v, ph: v, pw: v });
+    }
+    one(Msg::Size { ch: 24, cw: 80, ph: 480, pw: 640 });
+    // paste
+    for text in [&b""[..], b"[201~", b"a", b"line one\nline two\ttab\x07bell", "\u{e9}\u{20ac}\u{1f600}\u{10ffff}".as_bytes(), b"[200~[201~[201", b"\x00\x7f"] {
+        one(Msg::Paste(text.to_vec()));
+    }
+    // text at the ends of every encoded length
+    for cp in [0x20u32, 0x7e, 0x80, 0x7ff, 0x800, 0xd7ff, 0xe000, 0xffff, 0x10000, 0x10ffff, 0x41, 0x5b, 0x31] {
+        one(Msg::Text(cp));
+    }
+    // every spelling of the naming table on its own: a key whose bytes are a proper prefix of other
+    // sequences stays pending at the end of the stream, and is delivered when a sequence follows
+    for i in 0..keys().len() {
+        if ctx.nonterminal.contains(&i) {
+            c.push((vec![Msg::Key(i)], Some(vec![])));
+            c.push((vec![Msg::Key(i), Msg::Cursor { row: 5, col: 7 }], None));
+            c.push((vec![Msg::Key(i), Msg::Key(key_index(&[1])), Msg::Text(0xe9)], None));
+            c.push((vec![Msg::Key(i), Msg::Text(0x20ac), Msg::Key(i), Msg::Key(key_index(b"\x1b[A"))], None));
+        } else {
+            c.push((vec![Msg::Key(i)], None));
+        }
+    }
+    // documented merges of a prefix key with following printable input
+    let esc = key_index(&[27]);
+    c.push((vec![Msg::Key(esc), Msg::Text(b'a' as u32)], Some(vec!["key:1.97.2".into()])));
+    c.push((vec![Msg::Key(esc), Msg::Text(b'[' as u32), Msg::Text(b'A' as u32)], Some(vec![format!("key:{K_UP}.0.0")])));
+    c.push((vec![Msg::Key(key_index(b"\x1b[")), Msg::Text(b'A' as u32)], Some(vec![format!("key:{K_UP}.0.0")])));
+    c.push((vec![Msg::Key(key_index(b"\x1bO")), Msg::Text(b'P' as u32)], Some(vec![format!("key:{K_F}.1.0")])));
+    c.push((vec![Msg::Key(esc), Msg::Text(b'[' as u32)], Some(vec![])));
+    c.push((vec![Msg::Key(esc), Msg::Key(esc), Msg::Text(b'x' as u32)], Some(vec![format!("key:{K_ESC}.0.0"), "key:1.120.2".into()])));
+    // neighbours
+    let cpr = Msg::Cursor { row: 12, col: 40 };
+    let mouse = Msg::Mouse { code: 0, x: 10, y: 20, press: true };
+    c.push((vec![cpr.clone(), cpr.clone()], None));
+    c.push((vec![cpr.clone(), mouse.clone()], None));
+    c.push((vec![cpr.clone(), Msg::Text(b'a' as u32), cpr.clone()], None));
+    c.push((vec![mouse.clone(), Msg::Text(b'1' as u32), Msg::Text(b';' as u32), Msg::Text(b'R' as u32), cpr.clone()], None));
+    c.push((vec![Msg::Text(b'1' as u32), Msg::Cursor { row: 1, col: 5 }, Msg::Text(b'R' as u32)], None));
+    c.push((vec![Msg::Size { ch: 24, cw: 80, ph: 480, pw: 640 }, Msg::Size { ch: 24, cw: 80, ph: 480, pw: 640 }], None));
+    c.push((
+        vec![
+            Msg::Paste(b"[201~".to_vec()),
+            Msg::Paste(vec![]),
+            Msg::Text(b'~' as u32),
+            Msg::Color { name: ColorName::Background, spec: ColorSpec::Rgb(ch(4, 0xffff), ch(4, 0x8080), ch(4, 0)), fin: OscEnd::Bel },
+            Msg::Text(7 + 0x20),
+            Msg::TermcapOk { entries: vec![(b"Co".to_vec(), b"256".to_vec())], upper: false },
+            Msg::FaceReport(vec![SgrItem::Bold(true)]),
+            Msg::KittyImage { id: 1, placement: None, error: None },
+            Msg::CsiU { code: 97, alts: vec![], mods: Some(5) },
+            Msg::KeyboardLevel(1),
+            Msg::DeviceAttrs { attrs: vec![62, 4], trailing: false },
+            Msg::DecMode { mode_number: 2004, status_number: 1 },
+            Msg::Sgr(vec![SgrItem::Rgb { role: 0, r: 1, g: 2, b: 3, form: ColorForm::Semi }, SgrItem::Underline(1)]),
+        ],
+        None,
+    ));
+    c
+}
+
+/* ================================================================ replay */
+
+fn replay(out: &mut Out, rng: &mut Rng, v: &Value) {
+    let failure = &v["failure"];
+    let input = &failure["input"];
+    if input["kind"].as_str() == Some("keytable") {
+        return; // the tie is re-run by `run`
+    }
+    let Some(stream_hex) = input["stream"].as_str() else { return };
+    let stream = unhex(stream_hex);
+    let strings = |v: &Value| -> Option<Vec<String>> {
+        v.as_array().map(|a| a.iter().filter_map(|s| s.as_str().map(String::from)).collect())
+    };
+    let Some(expected) = strings(&input["expected"]).or_else(|| strings(&failure["expected"])) else { return };
+    let wires = strings(&input["msgs"]).unwrap_or_default();
+    let mut parts = vec![partition(rng, &stream, 0), partition(rng, &stream, 1)];
+    match strings(&input["partition"]) {
+        Some(p) => parts.push(p.iter().map(|c| unhex(c)).collect()),
+        None => parts.push(partition(rng, &stream, 2)),
+    }
+    let ok = check_stream(out, &stream, &wires, &expected, &parts);
+    out.case(&hex(&stream), true);
+    out.extra("replay", json!({"stream": hex(&stream), "agrees": ok}));
+}
+
+/* ================================================================ entry */
+
+pub fn run(cfg: &Cfg, out: &mut Out, rng: &mut Rng) {
+    let mut ctx = Ctx::new(cfg);
+    key_tie(&ctx, out);
+    sd_line(&ctx, out);
+    if let Some(v) = &cfg.replay {
+        replay(out, rng, v);
+        return;
+    }
+    fixed_lines(out, rng);
+    for (msgs, expected) in corpus(&ctx) {
+        run_case(&mut ctx, out, rng, &msgs, expected);
+    }
+    let corpus_streams = ctx.streams;
+    let n = if cfg.thorough { 1_000_000 } else { 10_000 };
+    for _ in 0..n {
+        let msgs = gen_stream(&ctx, rng);
+        run_case(&mut ctx, out, rng, &msgs, None);
+    }
+    out.extra("streams", json!({"corpus": corpus_streams, "generated": n, "partitions_each": 3}));
+    out.extra("correspondence_budget_left", json!(ctx.budget));
+}
